@@ -329,8 +329,20 @@ def gen_diag_case(rng, lib_constant=False):
             samples.insert(pos, copy.deepcopy(samples[j]))
             tilts.insert(pos, tilts[j])
             cf_same.insert(pos, cf_same[j])
+    # samples WITHOUT base-station angles (empty angles_calibrated), each with its own, different Crazyflie pose: at the
+    # front, in the middle, at the end, several of them; they contribute no diagonal but are scaled like everything else
+    empty_at = []
+    if rng.random() < 0.5:
+        for where in rng.sample(['front', 'middle', 'end', 'middle'], rng.randint(1, 3)):
+            pos = {'front': 0, 'end': len(cf), 'middle': rng.randint(0, len(cf))}[where]
+            Rc, tilt = _tilted_rot(rng, 0.0, 30.0)
+            cf.insert(pos, [Rc, [rng.uniform(-1, 1), rng.uniform(-1, 1), rng.uniform(0.0, 1.0)]])
+            samples.insert(pos, {})
+            tilts.insert(pos, tilt)
+            cf_same.insert(pos, max(cf_same) + 1)
+        empty_at = [i for i, smp in enumerate(samples) if not smp]
     inv = 1.0 / s
-    return {'kind': 'scale_diag', 'cf_same': cf_same, 'factor': s, 'expected_diagonal': LIB_DIAGONAL if lib_constant else DECK_DIAG,
+    return {'kind': 'scale_diag', 'empty_at': empty_at, 'cf_same': cf_same, 'factor': s, 'expected_diagonal': LIB_DIAGONAL if lib_constant else DECK_DIAG,
             'tilt_deg': tilts, 'seq': rng.choice(['list', 'tuple']), 'pose_readonly': rng.random() < 0.3,
             'bs': [[b, R, [v * inv for v in t]] for b, R, t in bs],
             'cf': [[R, [v * inv for v in t]] for R, t in cf],
@@ -803,6 +815,19 @@ def check_scale_diag(case):
     np = _np()
     S = _cf()[1]
     expected = case['expected_diagonal']
+    if case.get('all_empty'):
+        # OBSERVATION only (outside the property text: there is no sensor diagonal to make correct): no sample has angles.
+        # HEAD: np.mean([]) = NaN (RuntimeWarning), NaN factor, every translation NaN; an exception would be as good.
+        # Only the preservation of the inputs is checked.
+        bs, cf, samples = _diag_objects(dict(case, samples=[{} for _ in case['samples']]))
+        before = _snap([bs, cf, samples])
+        try:
+            S.scale_diagonals(bs, cf, samples, expected)
+        except Exception:  # noqa
+            pass
+        if _snap([bs, cf, samples]) != before:
+            return {'class': 'scale_modifies_inputs', 'case': case, 'expected': 'inputs unchanged', 'observed': 'changed'}
+        return None
     lib = expected == LIB_DIAGONAL
     wrong = 'scale_factor_wrong'
     try:
@@ -835,8 +860,8 @@ def check_scale_diag(case):
     if not abs(f - case['factor']) <= 2e-3 * case['factor']:
         return {'class': wrong, 'case': case, 'expected': case['factor'], 'observed': f,
                 'detail': 'scale_diagonals(..., expected_diagonal=%r): factor %.6f, the factor that makes the 30 mm x 15 mm deck '
-                          'diagonal correct is %.6f (sample tilts %s deg)' % (
-                              expected, f, case['factor'], [round(t, 1) for t in case.get('tilt_deg', [])])}
+                          'diagonal correct is %.6f (sample tilts %s deg, angle-less samples at positions %s)' % (
+                              expected, f, case['factor'], [round(t, 1) for t in case.get('tilt_deg', [])], case.get('empty_at'))}
     worst = 0.0
     for (bid, R, t) in case['truth_bs']:
         worst = max(worst, np.abs(bs2[bid].translation - np.array(t)).max() / (1 + np.abs(np.array(t)).max()))
@@ -860,6 +885,19 @@ def check_scale_diag(case):
     est = float(S._calculate_mean_diagonal(bs2, cf2, samples))
     if not abs(est - expected) <= 1e-9 or not abs(est - DECK_DIAG) <= 2e-3 * DECK_DIAG:
         return {'class': wrong, 'case': case, 'expected': [expected, DECK_DIAG], 'observed': est}
+    # independently of the library: mean sensor diagonal of the samples that HAVE angles, each with ITS OWN scaled pose
+    diags = []
+    for cfp, smp in zip(cf2, samples):
+        for bid, vecs in smp.angles_calibrated.items():
+            for a, b in ((0, 3), (1, 2)):
+                pa = _model_intersection([float(x) for x in vecs[a].cart], bs2[bid], cfp)
+                pb = _model_intersection([float(x) for x in vecs[b].cart], bs2[bid], cfp)
+                diags.append(math.sqrt(sum((pa[i] - pb[i]) ** 2 for i in range(3))))
+    own = sum(diags) / len(diags)
+    if not abs(own - expected) <= 1e-9 * max(1.0, expected / DECK_DIAG):
+        return {'class': wrong, 'case': case, 'expected': expected, 'observed': own,
+                'detail': 'mean sensor diagonal of the samples with angles, recomputed from the scaled system with every sample '
+                          'paired with its own pose (angle-less samples at positions %s)' % case.get('empty_at')}
     return None
 
 
@@ -1031,6 +1069,8 @@ def oracle(ctx, deep=False):
         cases.append(gen_scale_case(ctx.rng))
     for i in range(ctx.scale(150, 1500)):
         cases.append(gen_diag_case(ctx.rng, lib_constant=(i % 5 == 4)))
+        if i % 30 == 29:
+            cases[-1] = dict(cases[-1], all_empty=True, expected_diagonal=DECK_DIAG)
     results = _pmap(_check, cases)
     fails = [f for f in results if f]
     # keep the report small: at most 3 failures per class, smallest angle first for align cases
